@@ -222,7 +222,7 @@ fn merge_invariant_addition_for_loop_optimization(
 ) -> Option<PotentialLoopInvariantExpression> {
   match (existing_value, added_value) {
     (PotentialLoopInvariantExpression::Int(i1), PotentialLoopInvariantExpression::Int(i2)) => {
-      Some(PotentialLoopInvariantExpression::Int(i1 + i2))
+      Some(PotentialLoopInvariantExpression::Int(i1.wrapping_add(*i2)))
     }
     (PotentialLoopInvariantExpression::Int(0), v)
     | (v, PotentialLoopInvariantExpression::Int(0)) => Some(v.clone()),
@@ -236,7 +236,7 @@ pub(super) fn merge_invariant_multiplication_for_loop_optimization(
 ) -> Option<PotentialLoopInvariantExpression> {
   match (existing_value, added_value) {
     (PotentialLoopInvariantExpression::Int(i1), PotentialLoopInvariantExpression::Int(i2)) => {
-      Some(PotentialLoopInvariantExpression::Int(i1 * i2))
+      Some(PotentialLoopInvariantExpression::Int(i1.wrapping_mul(*i2)))
     }
     (PotentialLoopInvariantExpression::Int(1), v)
     | (v, PotentialLoopInvariantExpression::Int(1)) => Some(v.clone()),
@@ -271,8 +271,12 @@ fn merge_constant_operation_into_derived_induction_variable(
           immediate: PotentialLoopInvariantExpression::Int(i),
         } => Some(DerivedInductionVariable {
           base_name: *base_name,
-          multiplier: PotentialLoopInvariantExpression::Int(m * loop_invariant_expression_value),
-          immediate: PotentialLoopInvariantExpression::Int(i * loop_invariant_expression_value),
+          multiplier: PotentialLoopInvariantExpression::Int(
+            m.wrapping_mul(*loop_invariant_expression_value),
+          ),
+          immediate: PotentialLoopInvariantExpression::Int(
+            i.wrapping_mul(*loop_invariant_expression_value),
+          ),
         }),
         _ => None,
       }
